@@ -34,7 +34,8 @@ CheckRt(t) ==
               /\ UniqueProgramId(t.bytes) = t.fields.program_id
               /\ AvailNum(t.bytes) = t.fields.avail_num /\ AvailsExpected(t.bytes) = t.fields.avails_expected
               /\ AutoReturn(t.bytes) = t.fields.auto_return, t.fields)
-Check(t) == IF t.ev = "seg" THEN CheckSeg(t) ELSE IF t.ev = "manifest" THEN CheckManifest(t)
+Check(t) == IF t.ev = "fail" THEN Report("C14_ExactlyOnce", t.status < 500, [url |-> t.url, status |-> t.status])
+            ELSE IF t.ev = "seg" THEN CheckSeg(t) ELSE IF t.ev = "manifest" THEN CheckManifest(t)
             ELSE IF t.ev = "rt" THEN CheckRt(t) ELSE TRUE
 TraceInit == l = 1
 TraceNext == l <= Len(TraceLog) /\ Check(TraceLog[l]) /\ l' = l + 1
